@@ -120,7 +120,7 @@ def run_unit(unit):
             n += 1
             acc.count("family:cross")
             judge(acc, t, c.b, None, None, lambda: {"harness": "arbitrary", "root": t, "cc": None, "enc": False, "input": c.b.hex(), "fault": {"fault": "cross", "encoding_of": label}}, "cross")
-            if len(c.b) <= 12 and t not in ("Command", "CommandResponseStream"):
+            if label.endswith("/min") and len(c.b) <= 12 and t not in ("Command", "CommandResponseStream"):
                 # the encryption flag is an argument of the API for every type
                 acc.count("family:cross-flag")
                 judge(acc, t, c.b, None, True, lambda: {"harness": "arbitrary", "root": t, "cc": None, "enc": True, "input": c.b.hex(), "fault": {"fault": "cross-flag", "encoding_of": label}}, "cross")
